@@ -72,3 +72,38 @@ package compact
 //@ func verifLemma_C11_references
 //@   requires forall(j, 0, len(rs), 0 <= rPos(rs, j, primary) && rPos(rs, j, primary) + rLen(rs, j, primary) <= len(buffer), rPos(rs, j, primary))
 //@   falsify len(buffer) >= 20*len(rs)
+
+// ---- C11: LatLngs lists ------------------------------------------------------------
+
+//@ func llPos
+//@   decreases j
+
+//@ func LatLngs.MarshalWithoutLength
+//@   requires forall(j, 0, len(lls), 0 <= llPos(lls, j) && llPos(lls, j) + llLen(lls, j) <= len(buffer), llPos(lls, j))
+//@   modifies buffer
+//@   loop 1 modifies buffer
+//@   loop 1 invariant 0 <= rangeindex+1 && rangeindex+1 <= len(lls)
+//@   loop 1 invariant i == llPos(lls, rangeindex+1)
+//@   loop 1 invariant last.LatE7 == ite(rangeindex >= 0, lls[rangeindex].LatE7, 0) && last.LngE7 == ite(rangeindex >= 0, lls[rangeindex].LngE7, 0)
+//@   loop 1 invariant forall(j, 0, rangeindex+1, llAt(buffer, lls, j) && llPos(lls, j) + llLen(lls, j) <= i, llPos(lls, j))
+//@   ensures result == llPos(lls, len(lls))
+//@   ensures forall(j, 0, len(lls), llAt(buffer, lls, j), llPos(lls, j))
+
+//@ func (*LatLngs).UnmarshalWithoutLength
+//@   ghost w LatLngs
+//@   requires l == len(w) && base(*lls) != base(w)
+//@   requires forall(j, 0, l, llAt(buffer, w, j) && 0 <= llPos(w, j) && llPos(w, j) + llLen(w, j) <= len(buffer), llPos(w, j))
+//@   modifies *lls
+//@   loop 1 modifies *lls
+//@   loop 1 invariant base(*lls) != base(w)
+//@   loop 2 modifies *lls
+//@   loop 2 invariant 0 <= rangeindex+1 && rangeindex+1 <= l && len(*lls) == l && base(*lls) != base(w)
+//@   loop 2 invariant i == llPos(w, rangeindex+1)
+//@   loop 2 invariant last.LatE7 == ite(rangeindex >= 0, w[rangeindex].LatE7, 0) && last.LngE7 == ite(rangeindex >= 0, w[rangeindex].LngE7, 0)
+//@   loop 2 invariant forall(k, 0, rangeindex+1, (*lls)[k] == w[k])
+//@   ensures len(*lls) == l && result == llPos(w, l)
+//@   ensures forall(k, 0, l, (*lls)[k] == w[k])
+
+//@ func verifLemma_C11_latlngs
+//@   requires forall(j, 0, len(lls), 0 <= llPos(lls, j) && llPos(lls, j) + llLen(lls, j) <= len(buffer), llPos(lls, j))
+//@   falsify len(buffer) >= 20*len(lls)
